@@ -600,6 +600,103 @@ func describe(tracks []*trackSpec, mdatFirst layoutSpec, ms uint64) string {
 	return fmt.Sprintf("mp4ff-crop -d %d ; %v ; %s", ms, mdatFirst, strings.Join(ps, " || "))
 }
 
+func encodeBox(b mp4.Box) []byte {
+	var buf bytes.Buffer
+	_ = b.Encode(&buf)
+	return buf.Bytes()
+}
+
+var tableTypes = map[string]bool{"stts": true, "ctts": true, "stsc": true, "stsz": true, "stco": true, "co64": true, "stss": true, "sdtp": true}
+
+// sameOutsideTables compares two boxes: containers child by child (same number, same types, same order), the sample-table boxes
+// not at all, every other box by its encoding.
+func sameOutsideTables(a, b mp4.Box, path string) string {
+	if a.Type() != b.Type() {
+		return fmt.Sprintf("%s: box %s became %s", path, a.Type(), b.Type())
+	}
+	if tableTypes[a.Type()] {
+		return ""
+	}
+	ca, okA := a.(mp4.ContainerBox)
+	cb, okB := b.(mp4.ContainerBox)
+	if okA && okB && a.Type() != "stsd" {
+		x, y := ca.GetChildren(), cb.GetChildren()
+		if len(x) != len(y) {
+			return fmt.Sprintf("%s/%s: %d children became %d", path, a.Type(), len(x), len(y))
+		}
+		for i := range x {
+			if d := sameOutsideTables(x[i], y[i], path+"/"+a.Type()); d != "" {
+				return d
+			}
+		}
+		return ""
+	}
+	if !bytes.Equal(encodeBox(a), encodeBox(b)) {
+		return fmt.Sprintf("%s/%s: bytes differ", path, a.Type())
+	}
+	return ""
+}
+
+func blankDurations(f *mp4.File) {
+	f.Moov.Mvhd.Duration = 0
+	for _, t := range f.Moov.Traks {
+		t.Tkhd.Duration = 0
+		if t.Edts != nil {
+			for _, e := range t.Edts.Elst {
+				for j := range e.Entries {
+					e.Entries[j].SegmentDuration = 0
+				}
+			}
+		}
+	}
+}
+
+// checkUntouched: an oracle of "decodable progressive file, structure intact" that is independent of the model:
+// (1) the decoded output re-encodes to the output bytes (decodable AND a fixed point of decode/encode);
+// (2) the non-mdat top-level boxes of the input are the non-mdat boxes of the output, in order; the mdat is the last box;
+// (3) every box outside the sample tables is byte-identical once the durations the tool updates (mvhd, tkhd Duration, elst
+//     SegmentDuration) are blanked on both sides.
+func checkUntouched(inData, od []byte, desc string) {
+	evals++
+	outF, err := mp4.DecodeFile(bytes.NewReader(od))
+	inF, err2 := mp4.DecodeFile(bytes.NewReader(inData))
+	if err != nil || err2 != nil || outF.Moov == nil || inF.Moov == nil {
+		return // reported by the caller
+	}
+	var re bytes.Buffer
+	if err := outF.Encode(&re); err != nil || !bytes.Equal(re.Bytes(), od) {
+		fail("mp4ff-crop", "output-not-a-fixed-point", desc, fmt.Sprintf("decoding the output and encoding it again does not give the output back (err=%v, %d vs %d bytes)", err, re.Len(), len(od)))
+		return
+	}
+	var inNon, outNon []mp4.Box
+	for _, b := range inF.Children {
+		if b.Type() != "mdat" {
+			inNon = append(inNon, b)
+		}
+	}
+	for _, b := range outF.Children {
+		if b.Type() != "mdat" {
+			outNon = append(outNon, b)
+		}
+	}
+	if len(outF.Children) == 0 || outF.Children[len(outF.Children)-1].Type() != "mdat" || len(outF.Children) != len(outNon)+1 {
+		fail("mp4ff-crop", "structure-changed", desc, "the output does not end with its one mdat box")
+		return
+	}
+	if len(inNon) != len(outNon) {
+		fail("mp4ff-crop", "structure-changed", desc, fmt.Sprintf("%d non-mdat top-level boxes became %d", len(inNon), len(outNon)))
+		return
+	}
+	blankDurations(inF)
+	blankDurations(outF)
+	for i := range inNon {
+		if d := sameOutsideTables(inNon[i], outNon[i], ""); d != "" {
+			fail("mp4ff-crop", "structure-changed", desc, "outside the sample tables and the updated durations the output differs from the input: "+d)
+			return
+		}
+	}
+}
+
 func checkOutput(tracks []*trackSpec, xs []*tbl.Ref, ref *trackSpec, refX *tbl.Ref, ms uint64, inData []byte, outPath, desc string) {
 	od, err := os.ReadFile(outPath)
 	if err != nil {
@@ -612,6 +709,7 @@ func checkOutput(tracks []*trackSpec, xs []*tbl.Ref, ref *trackSpec, refX *tbl.R
 		return
 	}
 	inF, _ := mp4.DecodeFile(bytes.NewReader(inData))
+	checkUntouched(inData, od, desc)
 	// the end time the property defines: start of the first sync sample of the reference track at/after ms
 	j, jFloor := -1, -1
 	for i, s := range refX.Start {
